@@ -5,7 +5,7 @@ cd "$(dirname "$(readlink -f "$0")")"
 export VERIF_DIR=$PWD
 export GOFLAGS=-mod=mod GOPROXY=off GOSUMDB=off GOTOOLCHAIN=local
 mkdir -p .build/bin .build/logs evidence replay
-python3 tools/gen.py tp
+python3 tools/gen.py tp && touch .build/tp/.stamp
 [ "${1:-}" = "tp" ] && exit 0
 python3 tools/gen.py overlay --repo /repo
 # warm the build cache (first build ~60 s)
